@@ -385,7 +385,8 @@ class QConv2D(Conv2D, PrunableLayer):
 
     if self._mask is not None:
       # Apply mask to kernel weights if one is provided.
-      quantized_kernel = quantized_kernel * self._mask
+      quantized_kernel = quantized_kernel * tf.cast(
+          self._mask, quantized_kernel.dtype)
 
     # Grouped convolutions are not fully supported on the CPU for compiled
     # functions.
